@@ -1,6 +1,6 @@
 //@ unit map_json
 //@ serves C03
-//@ must_verify JsonConverter::convert_value JsonConverter::convert_list JsonConverter::convert_tuple JsonConverter::convert_env lemma_obj_fold data list_data tuple_data jview
+//@ must_verify JsonConverter::convert_value JsonConverter::convert_list JsonConverter::convert_tuple JsonConverter::convert_env lemma_obj_fold data list_data tuple_data jview d_num_agree lemma_list_num_agree lemma_obj_num_agree lemma_or_insert_agree lemma_one_shl
 //@ include prelude/head.rs
 use std::rc::Rc;
 
@@ -11,7 +11,11 @@ verus! {
 
 // C03, the ucg-owned half for JSON: `Val -> serde_json::Value`.
 // For ALL values v (any nesting, any strings, any i64, any f64, duplicate field names included):
-//   convert_value(v) is Ok(j)  <=>  data(Json, v) is a tree, and then  jview(j) == that tree
+//   convert_value(v) is Ok(j)  <=>  data(Json, v) is a tree, and then  jview(j) AGREES with that tree (d_num_agree,
+//                                   prelude/map_json_models.rs): same nesting, list length and order, key set,
+//                                   identical strings, same booleans / nulls, and NUMBERS OF EQUAL NUMERIC VALUE: a float
+//                                   is that float; the integer i is the integer i or a double that denotes exactly i
+//                                   (`42.0` for 42) - never a double that denotes a neighbour of i.
 //   convert_value(v) is Err    <=>  data(Json, v) is None  (a non-finite float or a constraint value somewhere
 //                                   inside v - nothing is dropped or defaulted to make the rest go through).
 
@@ -31,13 +35,19 @@ verus! {
                 forall|k: int| 0 <= k < items@.len() ==> *it.seq()[k] == items@[k],
                 v@.len() == it.index@,
                 forall|k: int| 0 <= k < it.index@ ==> data(Fmt::Json, *(#[trigger] items@[k])) is Some,
-                forall|k: int| 0 <= k < it.index@ ==> jview(#[trigger] v@[k]) == data(Fmt::Json, *items@[k])->Some_0,
+                forall|k: int| 0 <= k < it.index@ ==> d_num_agree(data(Fmt::Json, *items@[k])->Some_0, jview(#[trigger] v@[k])),
 //@   >>>
 //@   before "v.push" <<<
             assert(*val == items@[it.index@]);
 //@   >>>
 //@   after_loop 1 <<<
-        assert(jlist(v@) =~= list_entries(Fmt::Json, items@, items@.len() as int));
+        proof {
+            let want = list_entries(Fmt::Json, items@, items@.len() as int);
+            assert forall|k: int| 0 <= k < want.len() implies d_num_agree(want[k], #[trigger] jlist(v@)[k]) by {
+                assert(d_num_agree(data(Fmt::Json, *items@[k])->Some_0, jview(v@[k])));
+            }
+            lemma_list_num_agree(want, jlist(v@));
+        }
 //@   >>>
 //@   mutant list_element_skipped_on_error "v.push(self.convert_value(val)?);" => "match self.convert_value(val) { Ok(x) => { v.push(x); } Err(_) => { } }" expect convert_list
 //@   mutant list_built_in_reverse "v.push(self.convert_value(val)?);" => "v.push(self.convert_value(&items[items.len() - 1 - v.len()])?);" expect convert_list
@@ -55,14 +65,21 @@ verus! {
                 it.seq().len() == items@.len(),
                 forall|k: int| 0 <= k < items@.len() ==> *it.seq()[k] == items@[k],
                 forall|k: int| 0 <= k < it.index@ ==> data(Fmt::Json, *(#[trigger] items@[k]).1) is Some,
-                jobj(mp@) =~= obj_fold(true, tuple_entries(Fmt::Json, items@, it.index@ as int)),
+                obj_num_agree(obj_fold(true, tuple_entries(Fmt::Json, items@, it.index@ as int)), jobj(mp@)),
 //@   >>>
 //@   before "mp.entry" <<<
             proof {
                 let n = it.index@ as int;
+                let e1 = tuple_entries(Fmt::Json, items@, n + 1);
                 assert(items@[n].0 == *k && items@[n].1 == *v);
-                assert(tuple_entries(Fmt::Json, items@, n + 1).drop_last() =~= tuple_entries(Fmt::Json, items@, n));
-                assert(tuple_entries(Fmt::Json, items@, n + 1).last() == (k@, data(Fmt::Json, **v)->Some_0));
+                assert(e1.drop_last() =~= tuple_entries(Fmt::Json, items@, n));
+                assert(e1.last() == (k@, data(Fmt::Json, **v)->Some_0));
+                // whatever convert_value returns for this field (x), if it agrees with the field's tree, the map with the
+                // entry made agrees with the oracle's fold over the first n + 1 fields
+                assert forall|x: serde_json::Value| d_num_agree(e1.last().1, jview(x))
+                    implies obj_num_agree(obj_fold(true, e1), jobj(#[trigger] serde_json::or_insert_result(mp@, k@, x))) by {
+                    lemma_or_insert_agree(obj_fold(true, e1.drop_last()), mp@, k@, e1.last().1, x);
+                }
             }
 //@   >>>
 //@   mutant null_field_dropped "mp.entry(k.as_ref()).or_insert(self.convert_value(v)?);" => "if let Val::Empty = **v { } else { mp.entry(k.as_ref()).or_insert(self.convert_value(v)?); }" expect convert_tuple
@@ -78,14 +95,19 @@ verus! {
             invariant
                 it.seq().len() == items@.len(),
                 forall|k: int| 0 <= k < items@.len() ==> *it.seq()[k] == items@[k],
-                jobj(mp@) =~= obj_fold(true, env_entries(items@, it.index@ as int)),
+                obj_num_agree(obj_fold(true, env_entries(items@, it.index@ as int)), jobj(mp@)),
 //@   >>>
 //@   before "mp.entry" <<<
             proof {
                 let n = it.index@ as int;
+                let e1 = env_entries(items@, n + 1);
                 assert(items@[n].0 == *k && items@[n].1 == *v);
-                assert(env_entries(items@, n + 1).drop_last() =~= env_entries(items@, n));
-                assert(env_entries(items@, n + 1).last() == (k@, D::Str(v@)));
+                assert(e1.drop_last() =~= env_entries(items@, n));
+                assert(e1.last() == (k@, D::Str(v@)));
+                assert forall|x: serde_json::Value| jview(x) == D::Str(v@)
+                    implies obj_num_agree(obj_fold(true, e1), jobj(#[trigger] serde_json::or_insert_result(mp@, k@, x))) by {
+                    lemma_or_insert_agree(obj_fold(true, e1.drop_last()), mp@, k@, D::Str(v@), x);
+                }
             }
 //@   >>>
 //@   mutant env_key_value_swapped "mp.entry(k.as_ref()) .or_insert(serde_json::Value::String(v.to_string()));" => "mp.entry(v.as_ref()) .or_insert(serde_json::Value::String(k.to_string()));" expect convert_env
@@ -96,15 +118,27 @@ verus! {
 //@   subst "serde_json::Value::Bool(b)" => "serde_json::Value::Bool(*b)"
 //@   subst all "std::io::Error::new" => "verif_io_error"
 //@   ret r
+//@   subst "i as f64" => "verif_i64_as_f64(i)"
 //@   sig <<<
         ensures
-            // every kind of value except Int
-            !(*v is Int) ==> json_agrees(data(Fmt::Json, *v), r),
-            // FINDING-CLAUSE json-int-exact: an integer arrives as that integer (not as the nearest double)
-            *v is Int ==> json_agrees(data(Fmt::Json, *v), r),
+            // ONE clause for every kind of value, integers included
+            json_agrees(data(Fmt::Json, *v), r),
         decreases *v, 0int
 //@   >>>
-//@   mutant int_through_f64 "serde_json::Number::from(i)" => "match serde_json::Number::from_f64(i as f64) { Some(n) => n, None => serde_json::Number::from(i) }" expect convert_value
+//@   body_start <<<
+        broadcast use map_json_axioms::axiom_i64_to_f64_exact;
+        proof { lemma_one_shl(); }
+//@   >>>
+//    The integer arm.  Repaired code (fix: json_int_exact): |i| <= 2^53 -> `Number::from_f64(i as f64)` (a double that
+//    denotes exactly i, axiom_i64_to_f64_exact), every other integer -> `Number::from(i)` (the integer itself).
+//    Mutants: every way of sending an integer that a double cannot hold through the float path, or of writing another integer.
+//@   mutant threshold_dropped_all_ints_through_f64 "if i.unsigned_abs() > (1u64 << 53) {" => "if false {" expect convert_value
+//@   mutant threshold_u64_max "(1u64 << 53)" => "u64::MAX" expect convert_value
+//@   mutant threshold_2_pow_54 "1u64 << 53" => "1u64 << 54" expect convert_value
+//@   mutant threshold_by_cast_round_trip "i.unsigned_abs() > (1u64 << 53)" => "verif_f64_as_i64(verif_i64_as_f64(i)) != i" expect convert_value
+//@   mutant threshold_positive_side_only "i.unsigned_abs() > (1u64 << 53)" => "i > 9007199254740992" expect convert_value
+//@   mutant big_int_off_by_one "serde_json::Number::from(i)" => "serde_json::Number::from(if i > 0 { i - 1 } else { i + 1 })" expect convert_value
+//@   mutant big_int_through_f64 "serde_json::Number::from(i)" => "match serde_json::Number::from_f64(verif_i64_as_f64(i)) { Some(n) => n, None => serde_json::Number::from(i) }" expect convert_value
 //@   mutant null_becomes_false "Val::Empty => serde_json::Value::Null" => "Val::Empty => serde_json::Value::Bool(false)" expect convert_value
 //@   mutant constraint_becomes_null "&Val::Constraint(_) => {" => "&Val::Constraint(_) => { if true { return Ok(serde_json::Value::Null); }" expect convert_value
 //@   mutant nonfinite_float_becomes_null "None => { return Err(std::io::Error::new( std::io::ErrorKind::InvalidData, format!(\"Float is too large or Not a Number {}\", f), )); }" => "None => { return Ok(serde_json::Value::Null); }" expect convert_value
